@@ -17,7 +17,20 @@ import os
 import shutil
 import subprocess as sp
 import threading
+import time
 from unittest import mock
+
+# A generated script needs 0.05-0.3 s; the slowest one observed in 5 thorough passes (4121 cases each, 16 parallel
+# workers, machine shared with other checks) took 0.64 s -- the `sleep 1` of rp_sync_ranks is served by a 0.02 s
+# stub on PATH, and a prescribed arrival order is enforced by gating on the marker file, not by delays.
+# The harness gives up on a script after (more than 10x the slowest legitimate one):
+LAUNCH_TIMEOUT = float(os.environ.get('VERIF_C10_TIMEOUT', '8'))
+GROUP_WAIT = 3.0        # for a launch script that returned while members of its process group still run
+BREAKER_N = 4           # launch timeouts of one kind of case after which that kind is no longer run
+
+
+def case_kind(case):
+    return 'rank-sync-multi-rank' if (case.get('sync') and case['ranks'] > 1) else 'other'
 
 SID = 'sess.c10'
 PID = 'pilot.0000'
@@ -35,10 +48,12 @@ ENV_IGNORE = {'PATH', 'PWD', 'OLDPWD', 'SHLVL', '_', 'HOME', 'VERIF_LOG', 'VERIF
 STUB = '''#!/bin/sh
 # stub <id> <rc>: a pre/post command that records that it ran and exits <rc>
 echo "C:$1" >> "$VERIF_LOG/trace.${RP_RANK:-L}"
+echo "${RP_RANK:-L} C:$1" >> "$VERIF_LOG/trace.all"
 exit $2
 '''
 PROF = '''#!/bin/sh
 echo "P:$1" >> "$VERIF_LOG/trace.${RP_RANK:-L}"
+echo "${RP_RANK:-L} P:$1" >> "$VERIF_LOG/trace.all"
 '''
 CTRL = '''#!/bin/sh
 echo "T:$1:$2:$3" >> "$VERIF_LOG/trace.${RP_RANK:-L}"
@@ -50,6 +65,7 @@ PROBE = '''#!/bin/bash
 # the "executable" of the task: dump cwd, argv and environment NUL-separated
 r="${RP_RANK:-L}"
 echo "X" >> "$VERIF_LOG/trace.$r"
+echo "$r X" >> "$VERIF_LOG/trace.all"
 { printf '%s\\0' "$PWD" "$#" "$@"; env -0; } > "$VERIF_LOG/probe.$r"
 echo "out:$r"
 echo "err:$r" 1>&2
@@ -80,8 +96,9 @@ def render_entry(e):
 
 class Driver:
 
-    def __init__(self, rp, base):
+    def __init__(self, rp, base, breaker=None):
         self.rp = rp
+        self.breaker = breaker
         self.base = os.path.realpath(base)
         self.n = 0
         import radical.utils as ru
@@ -98,12 +115,21 @@ class Driver:
                 return True, ''
 
             def get_launch_cmds(self, task, exec_path):
+                # task['verif_order'] (harness only): the order in which the ranks are to ARRIVE at the rank
+                # synchronisation -- the rank at position k is started once k ranks have written their line
+                # into the marker file, so the arrival order is fixed, not left to the scheduler
                 n = task['description']['ranks']
-                return ('for r in %s; do VERIF_RANK=$r %s & eval p$r=$!; done; rc=0; '
-                        'for r in %s; do eval wait \\$p$r; x=$?; echo $x > $VERIF_LOG/rc.$r; '
+                order = task.get('verif_order')
+                cmds = []
+                for r in range(n):
+                    gate = ''
+                    if order:
+                        gate = ('while test $(cat pre_exec.sig 2>/dev/null | wc -l) -lt %d; '
+                                'do /bin/sleep 0.01; done; ' % order.index(r))
+                    cmds.append('( %sVERIF_RANK=%d exec %s ) & p%d=$!' % (gate, r, exec_path, r))
+                return ('%s; rc=0; for r in %s; do eval wait \\$p$r; x=$?; echo $x > $VERIF_LOG/rc.$r; '
                         'test $rc = 0 && rc=$x; done; exit $rc'
-                        % (' '.join(str(i) for i in range(n)), exec_path,
-                           ' '.join(str(i) for i in range(n))))
+                        % ('; '.join(cmds), ' '.join(str(i) for i in range(n))))
 
             def get_rank_cmd(self):
                 return 'test -z "$VERIF_RANK" || export RP_RANK=$VERIF_RANK\n'
@@ -232,6 +258,9 @@ class Driver:
                 'task_sandbox_path': '%s/%s' % (L['ps'], case['uid']), 'type': 'task'}
         if case.get('name') is not None:
             task['name'] = case['name']
+        if case.get('order') and case['sync'] and sorted(case['order']) == list(range(case['ranks'])) \
+                and case['ranks'] > 1:
+            task['verif_order'] = list(case['order'])
         if case.get('gpus') is not None:
             task['slots'] = [{'node_name': 'localhost', 'node_index': 0, 'cores': [{'index': r, 'occupation': 1.0}],
                               'gpus': [{'index': g, 'occupation': 1.0} for g in gl], 'lfs': 0, 'mem': 0}
@@ -243,7 +272,60 @@ class Driver:
         return task
 
     # ------------------------------------------------------------------
+    @staticmethod
+    def _leader_exited(pid, timeout):
+        t_end = time.time() + timeout
+        while True:
+            if os.waitid(os.P_PID, pid, os.WEXITED | os.WNOWAIT | os.WNOHANG) is not None:
+                return True
+            if time.time() > t_end:
+                return False
+            time.sleep(0.005)
+
+    @staticmethod
+    def _members(pgid):
+        """live processes of process group pgid other than its leader"""
+        out = []
+        for d in os.listdir('/proc'):
+            if d.isdigit() and int(d) != pgid:
+                try:
+                    with open('/proc/%s/stat' % d) as f:
+                        st = f.read()
+                except OSError:
+                    continue
+                f = st[st.rindex(')') + 2:].split()
+                if f[0] != 'Z' and int(f[2]) == pgid:
+                    out.append(int(d))
+        return out
+
+    def _cache_path(self, case):
+        import hashlib, json
+        h = hashlib.sha1(json.dumps(case, sort_keys=True).encode()).hexdigest()[:16]
+        return '%s.%s.json' % (self.breaker, h)
+
+    def _cached(self, case):
+        import json
+        if self.breaker and os.path.exists(self._cache_path(case)):
+            with open(self._cache_path(case)) as f:
+                return json.load(f)
+        return None
+
+    def tripped(self, case):
+        """launch timeouts recorded so far (all worker processes of this check run) for this kind of case"""
+        if not self.breaker or not os.path.exists(self.breaker):
+            return 0
+        kind = case_kind(case)
+        with open(self.breaker) as f:
+            return sum(1 for l in f if l.strip() == kind)
+
     def run(self, case, keep=False):
+        cached = self._cached(case)
+        if cached is not None:
+            return cached            # this very case timed out before in this run: same observation, no second wait
+        if self.tripped(case) >= BREAKER_N:
+            # the violation is established with concrete inputs; every further script of this kind would only
+            # cost another launch timeout.  Reported as NOT RUN (evidence + NOT-RUN line), never as checked.
+            return {'gen_error': None, 'not_run': case_kind(case)}
         L = self._layout()
         root = L['root']
         for r, rc in enumerate(case['rcs']):
@@ -258,33 +340,54 @@ class Driver:
             obs['gen_error'] = type(e).__name__ + ': ' + str(e)[:200].replace(root, '/R')
             return obs
         proc = task['proc']
-        try:
-            obs['launch_rc'] = proc.wait(timeout=20)
-        except sp.TimeoutExpired:
-            try:
-                os.killpg(os.getpgid(proc.pid), 9)
-            except Exception:
-                proc.kill()
-            proc.wait()
-            obs['launch_rc'] = -1
-
-        # the launch script runs in its own session (new_session_per_task): wait until every process of that
-        # group is gone (a script that puts its payload in the background returns early), then clear the group
-        import time
-        t_end = time.time() + 4.0
-        while time.time() < t_end:
-            try:
-                os.killpg(proc.pid, 0)
-            except OSError:
-                break
-            time.sleep(0.01)
-        else:
-            try:
-                os.killpg(proc.pid, 9)
-            except OSError:
-                pass
-            time.sleep(0.05)
+        t_start = time.time()
+        # Wait for the launch script WITHOUT reaping it: as long as the (possibly dead) group leader is not
+        # reaped its pid -- which is the id of the script's session and process group (new_session_per_task) --
+        # cannot be given to another process, so looking at / signalling that group can never hit a stranger
+        # (thousands of short-lived processes are started by the parallel workers).
+        timed_out = not self._leader_exited(proc.pid, LAUNCH_TIMEOUT)
+        stragglers = False
+        if not timed_out:
+            # a script that put its payload into the background returns early: give the members time to finish
+            t_end = time.time() + GROUP_WAIT
+            while self._members(proc.pid):
+                if time.time() > t_end:
+                    stragglers = True
+                    break
+                time.sleep(0.01)
+        # which ranks' exec scripts were still running when the harness gave up
+        blocked = []
+        if timed_out:
+            for r in range(case['ranks']):
+                started = os.path.exists('%s/trace.%d' % (L['log'], r))
+                ended = os.path.exists('%s/rc.%d' % (L['log'], r))
+                if started and not ended:
+                    blocked.append(r)
+        obs['blocked'] = blocked
+        if timed_out or stragglers:
+            for _ in range(100):                 # no process of a hung script survives the case
+                try:
+                    os.killpg(proc.pid, 9)
+                except OSError:
+                    break
+                if not self._members(proc.pid):
+                    break
+                time.sleep(0.01)
             obs['stragglers'] = True
+        rc = proc.wait()                         # reap the leader
+        # popen.py keeps every launched pid in a module list and, at interpreter exit, sends SIGTERM to the
+        # process GROUP of each of them.  The pids of finished cases are free for re-use by then (by the scripts
+        # of the other workers, or anybody else): forget them as soon as they are reaped.
+        import radical.pilot.agent.executing.popen as mpopen
+        try:
+            mpopen._pids.remove(proc.pid)
+        except ValueError:
+            pass
+        obs['launch_rc'] = -1 if timed_out else rc
+        obs['wall'] = round(time.time() - t_start, 2)
+        if timed_out and self.breaker:
+            with open(self.breaker, 'a') as f:
+                f.write(case_kind(case) + '\n')
 
         def canon(s):
             return s.replace(root, '/R')
@@ -302,6 +405,7 @@ class Driver:
 
         sbox = task['task_sandbox_path']
         obs['ltrace'] = trace('L')
+        obs['gtrace'] = [x for x in trace('all') if not x.startswith('L ')]
         ranks = []
         for r in range(case['ranks']):
             pr = rd('%s/probe.%d' % (L['log'], r))
@@ -339,6 +443,10 @@ class Driver:
         obs['exec_line'] = line
         lo = rd('%s/%s.launch.out' % (sbox, case['uid']))
         obs['launch_out'] = None if lo is None else sorted(canon(lo.decode('utf8', 'replace')).split('\n'))[:8]
+        if timed_out and self.breaker:
+            import json
+            with open(self._cache_path(case), 'w') as f:
+                json.dump(obs, f)
         if keep:
             obs['_scripts'] = {'exec': ex.decode('utf8', 'replace') if ex else None,
                                'launch': (rd('%s/%s.launch.sh' % (sbox, case['uid'])) or b'').decode('utf8', 'replace')}
